@@ -37,7 +37,7 @@ def gen_cases(tier, seed):
         maxchain = 0
         for j in range(nl):
             cls = r.choice(["file-rel", "file-abs", "file-out", "dir-in", "dir-out", "dir-out-abs", "chain", "chain", "dangling", "cycle", "deep-link",
-                            "dir-otherfs", "file-otherfs", "chain-otherfs"])
+                            "dir-otherfs", "file-otherfs", "chain-otherfs", "same-name", "same-name"])
             nm = "src/L%d" % j if r.random() < 0.6 else "src/sub/L%d" % j
             up = "" if nm.count("/") == 1 else "../"
             if cls == "file-rel":
@@ -59,6 +59,12 @@ def gen_cases(tier, seed):
             elif cls == "chain-otherfs":
                 spec.append({"p": "out/hop%d" % j, "k": "l", "target": "@OTHER@/xd/xinner"})
                 spec.append({"p": nm, "k": "l", "target": up + "../out/hop%d" % j})
+            elif cls == "same-name":
+                # a link in a subdirectory named like a different file elsewhere (content must come from the link's own target)
+                if not any(e["p"] == "src/sub/a" for e in spec):
+                    spec.append({"p": "src/sub/a", "k": "l", "target": "../b"})
+                if not any(e["p"] == "src/sub/deep/c" for e in spec):
+                    spec.append({"p": "src/sub/deep/c", "k": "l", "target": "../../../out/x"})
             elif cls == "deep-link":
                 spec.append({"p": "out/od/inner/lk%d" % j, "k": "l", "target": "../../x"})   # a link inside a linked directory
                 spec.append({"p": nm, "k": "l", "target": up + "../out/od"})
@@ -82,7 +88,11 @@ def gen_cases(tier, seed):
                     spec.append({"p": nm + "_c", "k": "l", "target": os.path.basename(nm)})
                 bad = True
             classes.add(cls)
-        yield {"spec": spec, "driver": driver, "classes": sorted(classes), "bad": bad, "maxchain": maxchain, "fs": "ext4",
+        top = r.random() < 0.2
+        if top:
+            spec.append({"p": "srclink", "k": "l", "target": r.choice(["src", "@ROOT@/src"])})
+            classes.add("toplevel-link")
+        yield {"top": top, "spec": spec, "driver": driver, "classes": sorted(classes), "bad": bad, "maxchain": maxchain, "fs": "ext4",
                "args": ["--driver", driver, "-w", str(r.choice([1, 2, 4]))] + r.choice([[], [], ["--fsync"], ["--no-perms"], ["--gitignore"], ["--reflink", "never"], ["--no-progress"], ["--block-size", "4096"]])
                        + ["-r", "-L", "src", "dst"]}
 
@@ -127,7 +137,10 @@ def run_case(case):
         if resolvable == case["bad"]:
             res["inconc"].append("generator-model-disagree")
             return res
-        run = core.run_plain(core.xcp_argv(case["args"]), root)
+        args = list(case["args"])
+        if case.get("top"):
+            args[-2] = "srclink"
+        run = core.run_plain(core.xcp_argv(args), root)
         if run.verdict != "exited":
             res["inconc"].append("run-" + run.verdict)
             return res
